@@ -53,3 +53,35 @@ package main
 //@   opt params = i *ircserver.IRCServer
 //@   requires true
 //@   ensures trivial: true
+// the text-log dump and the canary reader decode entries the same way
+//@ func dumpLogToDisk1
+//@   opt dead = return#2 return#3
+//@   assert@call NewMessageFromBytes#0 : decoded: len(value) > 0 && value[0] == 'p' ==> raftRepr(addrof(p), addrof(nlog))
+//@   assert@call NewMessageFromBytes#0 : same-entry: sameslice(callarg0, nlog.Data) && callarg1 == robust.IdFromRaftIndex(nlog.Index)
+//@ func canary
+//@   assert@call NewMessageFromBytes#0 : decoded: len(value) > 0 && value[0] == 'p' ==> raftRepr(addrof(p), addrof(nlog))
+//@   assert@call NewMessageFromBytes#0 : same-entry: sameslice(callarg0, nlog.Data) && callarg1 == robust.IdFromRaftIndex(nlog.Index)
+
+// ---------------------------------------------------------------------------
+// C18: log entries. raftRepr (internal/raftlog) relates the stored protobuf
+// form to the raft.Log; every reader copies all six fields, every site that
+// turns an entry into a replicated message takes data and index from the
+// same entry.
+//@ func FSM.Apply
+//@   assert@call LevelDBStore.StoreLogProto#0 : encoded: raftRepr(addrof(p), l)
+//@   assert@call NewMessageFromBytes#0 : same-entry: sameslice(callarg0, l.Data) && callarg1 == robust.IdFromRaftIndex(l.Index)
+// LevelDBStore.FirstIndex/LastIndex never return an error: the two error returns are dead code
+//@ func FSM.Snapshot
+//@   opt dead = return#0 return#1
+//@   assert@call NewMessageFromBytes#0 : decoded: len(value) > 0 && value[0] == 'p' ==> raftRepr(addrof(p), addrof(nlog))
+//@   assert@call NewMessageFromBytes#0 : same-entry: sameslice(callarg0, nlog.Data) && callarg1 == robust.IdFromRaftIndex(nlog.Index)
+//@ func FSM.decodeProtobuf
+//@   assert@call NewMessageFromBytes#0 : same-entry: sameslice(callarg0, entry.Data) && callarg1 == robust.IdFromRaftIndex(entry.Index)
+// the text-log dump and the canary reader decode entries the same way
+//@ func dumpLogToDisk1
+//@   opt dead = return#2 return#3
+//@   assert@call NewMessageFromBytes#0 : decoded: len(value) > 0 && value[0] == 'p' ==> raftRepr(addrof(p), addrof(nlog))
+//@   assert@call NewMessageFromBytes#0 : same-entry: sameslice(callarg0, nlog.Data) && callarg1 == robust.IdFromRaftIndex(nlog.Index)
+//@ func canary
+//@   assert@call NewMessageFromBytes#0 : decoded: len(value) > 0 && value[0] == 'p' ==> raftRepr(addrof(p), addrof(nlog))
+//@   assert@call NewMessageFromBytes#0 : same-entry: sameslice(callarg0, nlog.Data) && callarg1 == robust.IdFromRaftIndex(nlog.Index)
